@@ -108,7 +108,8 @@ def gen_case(rng, n_steps, trace):
             if rng.random() < 0.6:
                 reported[k] = ground(1)
     rule_substs = {str(i): {v: ground(1) for v in set(vars_of(r['l'])) | set(vars_of(r['r']))} for i, r in enumerate(rules)}
-    return {'cmd': 'ktrace', 'trace': trace, 'optimize': rng.random() < 0.5, 'reported': reported, 'rule_substs': rule_substs,
+    noise = [[rng.choice(['fun', 'hook']) for _ in range(rng.choice([0, 0, 1, 2, 3]))] for _ in steps]     # events between the rule events
+    return {'cmd': 'ktrace', 'trace': trace, 'optimize': rng.random() < 0.5, 'reported': reported, 'rule_substs': rule_substs, 'noise': noise,
             'definition': {'sorts': sorts, 'symbols': symbols, 'rules': rules}, 'init': init, 'steps': steps}
 
 
@@ -147,7 +148,8 @@ def run(v, tier):
     for q, r in zip(reqs, res):
         c = {'out': 'ok' if r['out'] == 'ok' else 'raise', 'exc': r['out'], 'req': {'definition': q['definition'], 'init': q['init'], 'steps': q['steps'], 'reported': [x if x is not None else {'k': 'same'} for x in q['reported']]},
              'rewrites_def': r.get('rewrites_def', pi2v.EV(0)), 'init': r.get('init', pi2v.EV(0)), 'steps': r.get('steps', []), 'convs': r.get('convs', []),
-             'hints_out': (r.get('hints_out') or 'raise')[:5].rstrip(':'), 'hints_claims': r.get('hints_claims', [])}
+             'hints_out': (r.get('hints_out') or 'raise')[:5].rstrip(':'), 'hints_claims': r.get('hints_claims', []),
+             'llvm_out': (r.get('llvm_out') or 'raise')[:5].rstrip(':'), 'llvm_claims': r.get('llvm_claims', [])}
         cases.append(c)
         acc += sum(1 for s in c['steps'] if s['out'] == 'ok')
         ref += sum(1 for s in c['steps'] if s['out'] != 'ok')
